@@ -129,7 +129,10 @@ def header_fields(F, S):
                 got[l[2]] = c05.resolve(ch.term(ch.kids(nd["id"])[1]), c05.alias_defs(ch))
     probs = [k for k, v in want.items() if got.get(k) != v]
     lg = got.get("lgWidthInTiles")
-    if not (lg and lg[0] == "call" and lg[1].endswith("GetWidthInTilesLog2") and lg[3] == (("mem", ("this",), "widthInTiles"),)):
+    wt_ = ("mem", ("this",), "widthInTiles")
+    lg_want = {F.call_value(M + "::GetWidthInTilesLog2", ("this",), (wt_,)), ("call", M + "::GetWidthInTilesLog2", ("this",), (wt_,)),
+               F.call_value("OP2Utility::Log2OfPowerOf2", None, (wt_,))}
+    if lg not in lg_want:
         probs.append("lgWidthInTiles")
     tc = got.get("tilesetCount")
     if tc != ("size", ("mem", ("this",), "tilesetSources")):
